@@ -161,7 +161,7 @@ func (w *World) NewParty(name string, funds int64) *Party {
 	}
 	wal := &simpleWallet{accs: map[wallet.AddrKey]*simwallet.Account{wallet.Key(addr): acc}}
 	p.Adj = w.Ledger.NewAdjudicator(addr)
-	lw, err := local.NewWatcher(p.Adj)
+	lw, err := local.NewWatcher(p.Adj.Tagged("watcher:" + name))
 	if err != nil {
 		panic(err)
 	}
